@@ -62,8 +62,9 @@ def elem(v):
 
 class Spec:
     def __init__(self, source_attrs=(), source_self_attrs=(), source_calls=(), tainted_params=(), sink_attr_ok=(), node_ctor=None,
-                 clean_calls=(), skip_classes=()):
+                 clean_calls=(), skip_classes=(), skip_functions=()):
         self.skip_classes = set(skip_classes)
+        self.skip_functions = set(skip_functions)
         self.source_attrs = set(source_attrs)            # x.attr read is a source, whatever x is
         self.source_self_attrs = set(source_self_attrs)  # self.attr read is a source
         self.source_calls = set(source_calls)            # f(...) / self.f(...) result is tainted
@@ -79,7 +80,7 @@ class Analysis:
         self.funcs = {}        # qualname -> (fn, cls)
         self.by_method = {}    # (cls, name) -> qualname
         for qual, fn, cls in F.iter_functions(mod):
-            if cls in spec.skip_classes:
+            if cls in spec.skip_classes or qual.split(".")[-1] in spec.skip_functions:
                 continue
             self.funcs[qual] = (fn, cls)
             if S.enclosing_function(fn) is None:
